@@ -19,6 +19,7 @@ import (
 	"go/token"
 	"go/types"
 	"os"
+	"runtime"
 	"sort"
 	"strings"
 )
@@ -31,9 +32,10 @@ type textEdit struct {
 }
 
 type inlineCand struct {
-	fs       *FuncSrc
-	exprOnly ast.Expr // single `return expr` body
-	defers   []*ast.DeferStmt
+	fs          *FuncSrc
+	exprOnly    ast.Expr // single `return expr` body
+	genericRecv bool
+	defers      []*ast.DeferStmt
 }
 
 func loadKnownFuncs() map[string]bool {
@@ -107,8 +109,11 @@ func (p *Program) normaliseOnce(known map[string]bool, round int) (map[string][]
 		if callee == nil {
 			continue
 		}
-		cand := cands[callee]
+		cand := cands[callee.Origin()]
 		if cand == nil || cs.In.Root() == cand.fs || cs.In.Pkg != cand.fs.Pkg {
+			continue
+		}
+		if cand.genericRecv && !sameGenericRecv(cs.In.Root().Decl, cand.fs.Decl) {
 			continue
 		}
 		// not inside another candidate's text that is itself going to be inlined elsewhere: fine, rounds converge
@@ -218,10 +223,13 @@ func (p *Program) normaliseOnce(known map[string]bool, round int) (map[string][]
 func (p *Program) inlinable(fs *FuncSrc) *inlineCand {
 	fd := fs.Decl
 	sig, _ := fs.Obj.Type().(*types.Signature)
-	if sig == nil || sig.Variadic() || sig.TypeParams() != nil || sig.RecvTypeParams() != nil || fd.Body == nil {
+	if sig == nil || sig.Variadic() || sig.TypeParams() != nil || fd.Body == nil {
 		return nil
 	}
 	c := &inlineCand{fs: fs}
+	// a method of a generic type is inlined only into methods of the same type
+	// that name the type parameters alike (sameGenericRecv)
+	c.genericRecv = sig.RecvTypeParams() != nil
 	ok := true
 	info := fs.Pkg.TypesInfo
 	ast.Inspect(fd.Body, func(n ast.Node) bool {
@@ -336,11 +344,11 @@ func (p *Program) inlineAt(cs *CallSite, cand *inlineCand, tag string, read func
 	cfile := p.Fset.File(call.Pos())
 	dfile := p.Fset.File(fd.Pos())
 	if cfile == nil || dfile == nil {
-		return nil, nil, false
+		return inlFail()
 	}
 	csrc, dsrc := read(cfile.Name()), read(dfile.Name())
 	if csrc == nil || dsrc == nil {
-		return nil, nil, false
+		return inlFail()
 	}
 	off := func(f *token.File, pos token.Pos) int { return f.Offset(pos) }
 	ctext := func(n ast.Node) string { return string(csrc[off(cfile, n.Pos()):off(cfile, n.End())]) }
@@ -370,7 +378,7 @@ func (p *Program) inlineAt(cs *CallSite, cand *inlineCand, tag string, read func
 		return true
 	})
 	if !okImports {
-		return nil, nil, false
+		return inlFail()
 	}
 	// free identifiers of the callee (package-level objects) must not be shadowed at the call site
 	shadow := false
@@ -403,7 +411,7 @@ func (p *Program) inlineAt(cs *CallSite, cand *inlineCand, tag string, read func
 		return true
 	})
 	if shadow {
-		return nil, nil, false
+		return inlFail()
 	}
 	// arguments (receiver first)
 	type bind struct {
@@ -415,11 +423,11 @@ func (p *Program) inlineAt(cs *CallSite, cand *inlineCand, tag string, read func
 	if sig.Recv() != nil {
 		sel, ok := unparen(call.Fun).(*ast.SelectorExpr)
 		if !ok {
-			return nil, nil, false
+			return inlFail()
 		}
 		s := info.Selections[sel]
 		if s == nil || s.Kind() != types.MethodVal || len(s.Index()) != 1 {
-			return nil, nil, false
+			return inlFail()
 		}
 		rt := ctext(sel.X)
 		_, recvPtr := sig.Recv().Type().(*types.Pointer)
@@ -437,7 +445,7 @@ func (p *Program) inlineAt(cs *CallSite, cand *inlineCand, tag string, read func
 		binds = append(binds, bind{robj, rt, sel.X})
 	}
 	if len(call.Args) != sig.Params().Len() {
-		return nil, nil, false
+		return inlFail()
 	}
 	pi := 0
 	for _, fld := range fd.Type.Params.List {
@@ -608,12 +616,12 @@ func (p *Program) inlineAt(cs *CallSite, cand *inlineCand, tag string, read func
 		for _, b := range binds {
 			if b.obj == nil {
 				if !simpleExpr(b.expr) {
-					return nil, nil, false // an unnamed parameter whose argument has effects
+					return inlFail() // an unnamed parameter whose argument has effects
 				}
 				continue
 			}
 			if !simpleExpr(b.expr) && uses[b.obj] != 1 {
-				return nil, nil, false
+				return inlFail()
 			}
 			argOf[b.obj] = "(" + b.text + ")"
 		}
@@ -630,11 +638,11 @@ func (p *Program) inlineAt(cs *CallSite, cand *inlineCand, tag string, read func
 			// the arguments may replace only when nothing can change them later
 			// and they can be repeated textually
 			if _, whole := unparen(cand.exprOnly).(*ast.FuncLit); !whole || !p.stableCallOperands(cs) {
-				return nil, nil, false
+				return inlFail()
 			}
 			for _, b := range binds {
 				if !accessPath(b.expr) {
-					return nil, nil, false
+					return inlFail()
 				}
 			}
 		}
@@ -678,7 +686,7 @@ func (p *Program) inlineAt(cs *CallSite, cand *inlineCand, tag string, read func
 		if tv := dinfo.Types[cand.exprOnly]; needConv && (tv.Value != nil || !types.Identical(tv.Type, rt)) {
 			ts := typeStr(rt)
 			if !okQ {
-				return nil, nil, false
+				return inlFail()
 			}
 			text = ts + text
 			if strings.ContainsAny(ts, "*[ (") {
@@ -697,18 +705,22 @@ func (p *Program) inlineAt(cs *CallSite, cand *inlineCand, tag string, read func
 			break
 		}
 		if _, isLit := n.(*ast.FuncLit); isLit {
-			return nil, nil, false
+			return inlFail()
 		}
 	}
 	if stmt == nil {
-		return nil, nil, false
+		return inlFail()
+	}
+	// `if v := H(..); cond {`: the statement rewritten is the if
+	if ifp, ok := p.Parent(caller.File, stmt).(*ast.IfStmt); ok && ifp.Init == stmt {
+		stmt = ifp
 	}
 	// the statement must sit directly in a block (or case clause) so that declarations can precede it
 	switch par := p.Parent(caller.File, stmt).(type) {
 	case *ast.BlockStmt, *ast.CaseClause, *ast.CommClause:
 		_ = par
 	default:
-		return nil, nil, false
+		return inlFail()
 	}
 	role := ""
 	switch s := stmt.(type) {
@@ -854,7 +866,7 @@ func (p *Program) inlineAt(cs *CallSite, cand *inlineCand, tag string, read func
 		}
 	}
 	if role == "" {
-		return nil, nil, false
+		return inlFail()
 	}
 	nres := sig.Results().Len()
 	// result variables
@@ -910,7 +922,7 @@ func (p *Program) inlineAt(cs *CallSite, cand *inlineCand, tag string, read func
 		}
 	}
 	if !okQ {
-		return nil, nil, false
+		return inlFail()
 	}
 	label := "L" + tag
 	// a loop to break out of is only needed when the callee returns early
@@ -999,7 +1011,16 @@ func (p *Program) inlineAt(cs *CallSite, cand *inlineCand, tag string, read func
 				switch contKind {
 				case "nonnil":
 					if !tv.IsNil() {
-						sb.WriteString(contVar + " := " + e + "; " + dtext + "if " + contVar + " != nil " + then + "; ")
+						decl := contVar + " := " + e
+						if rt0 := sig.Results().At(0).Type(); tv.Type == nil || !types.Identical(tv.Type, rt0) {
+							// the variable has the helper's result type, not the type of this value
+							ts := typeStr(rt0)
+							if !okQ {
+								return textEdit{}, false, true
+							}
+							decl = "var " + contVar + " " + ts + " = " + e
+						}
+						sb.WriteString(decl + "; " + dtext + "if " + contVar + " != nil " + then + "; ")
 					} else {
 						sb.WriteString(dtext)
 					}
@@ -1098,7 +1119,7 @@ func (p *Program) inlineAt(cs *CallSite, cand *inlineCand, tag string, read func
 			fmt.Fprintf(&g2, "\n//line %s:%d\n", cfile.Name(), eline)
 			return []textEdit{{off(cfile, stmt.Pos()), off(cfile, stmt.End()), g2.String()}}, stmt, true
 		}
-		return nil, nil, false
+		return inlFail()
 	}
 	if contKind != "" {
 		var g2 strings.Builder
@@ -1124,7 +1145,7 @@ func (p *Program) inlineAt(cs *CallSite, cand *inlineCand, tag string, read func
 		eds = append(eds, textEdit{off(cfile, stmt.Pos()), off(cfile, stmt.End()), gen.String() + "_ = 0"})
 	case "assign", "return", "ifcond", "ifinit":
 		if nres == 0 {
-			return nil, nil, false
+			return inlFail()
 		}
 		eds = append(eds, textEdit{off(cfile, stmt.Pos()), off(cfile, stmt.Pos()), gen.String()})
 		eds = append(eds, textEdit{off(cfile, call.Pos()), off(cfile, call.End()), repl})
@@ -1256,4 +1277,30 @@ func (p *Program) stableCallOperands(cs *CallSite) bool {
 		return true
 	})
 	return ok
+}
+
+// sameGenericRecv: both are methods of the same generic type and spell its
+// type parameters identically (func (x *T[A, B]) ...), so that the text of
+// one is valid inside the other.
+func sameGenericRecv(a, b *ast.FuncDecl) bool {
+	if a == nil || b == nil || a.Recv == nil || b.Recv == nil || len(a.Recv.List) != 1 || len(b.Recv.List) != 1 {
+		return false
+	}
+	strip := func(e ast.Expr) string {
+		if st, ok := e.(*ast.StarExpr); ok {
+			e = st.X
+		}
+		return types.ExprString(e)
+	}
+	sa, sb := strip(a.Recv.List[0].Type), strip(b.Recv.List[0].Type)
+	return sa == sb && strings.Contains(sa, "[")
+}
+
+// inlFail: the call cannot be inlined (the line of the refusing test is shown with GALINT_DEBUG_NORM).
+func inlFail() ([]textEdit, ast.Node, bool) {
+	if os.Getenv("GALINT_DEBUG_NORM") != "" {
+		_, _, line, _ := runtime.Caller(1)
+		fmt.Fprintf(os.Stderr, "normalise: not inlined (normalise.go:%d)\n", line)
+	}
+	return nil, nil, false
 }
